@@ -283,7 +283,13 @@ class Report(PropertyTreeNode, MessageHandler):
         """
         output_dir = self.project.outputDir or "./"
         base_name = self.name or self.id
-        return Path(output_dir) / f"{base_name}.{extension}"
+        path = Path(output_dir) / f"{base_name}.{extension}"
+        # A report name like "../x" or "/tmp/x" must not lead out of the output directory
+        try:
+            path.resolve().relative_to(Path(output_dir).resolve())
+        except ValueError:
+            path = Path(output_dir) / f"{Path(base_name).name}.{extension}"
+        return path
 
     def _generate_json(self) -> None:
         """Generate JSON output."""
